@@ -191,6 +191,11 @@ func C18() int {
 		defer os.RemoveAll(dir)
 		inp := filepath.Join(dir, "in.log")
 		outp := filepath.Join(dir, "out.log")
+		if m%16 == 9 || m%16 == 6 {
+			// an output FILE may be called anything, also "-" (run from the job's directory): --outputFile
+			// names a file, there is no spelling of it that means "standard output"
+			outp = filepath.Join(dir, "-")
+		}
 		os.WriteFile(inp, input, 0o644)
 		os.WriteFile(outp, []byte(sentinel), 0o644)
 		args := []string{"redact"}
@@ -202,7 +207,11 @@ func C18() int {
 			}
 		}
 		if has(bOut) {
-			args = append(args, "-o", outp)
+			if filepath.Base(outp) == "-" {
+				args = append(args, "-o", "-")
+			} else {
+				args = append(args, "-o", outp)
+			}
 		}
 		if has(bEncrypt) {
 			args = append(args, "--encrypt")
@@ -234,6 +243,10 @@ func C18() int {
 		env := atlasEnv(srv, dir)
 		if has(bEnvPair) {
 			env = append(env, "ATLAS_PUBLIC_KEY="+atlasPub, "ATLAS_PRIVATE_KEY="+atlasPriv)
+		}
+		if m%4 == 2 {
+			// a release build (the version string comes from ANONYMONGO_VERSION) with nothing cached in the home directory
+			env = append(env, "ANONYMONGO_VERSION=2.7.1", "HOME="+filepath.Join(dir, "home"), "XDG_CACHE_HOME="+filepath.Join(dir, "home", ".cache"))
 		}
 		if !has(bEnvPair) && (m/2+m/64+m/256)%2 == 1 {
 			// exported but empty: that is no key pair
